@@ -11,7 +11,7 @@ COMMON := $(wildcard harness/common/*.hpp)
 
 STRUCT_BINS := $(B)/qsl $(B)/map $(B)/bst $(B)/mem
 ACTOR_HDR := $(wildcard harness/actor/*.hpp harness/actor/*.inc)
-ALL := $(STRUCT_BINS) $(B)/actor
+ALL := $(STRUCT_BINS) $(B)/actor $(B)/thpool $(B)/thpool_race
 
 .PHONY: all bins lib-asan lib-tsan lib-fuzz clean FORCE
 all:
@@ -42,6 +42,16 @@ $(B)/obj/actor/%.o: harness/actor/%.cpp $(COMMON) $(ACTOR_HDR)
 	$(CXX) $(CXXFLAGS) $(ASAN) $(LIBINC) -I$(B)/lib-asan/gen -c $< -o $@
 $(B)/actor: $(B)/obj/actor/gen.o $(B)/obj/actor/exec.o $(B)/lib-asan/libmodule.a
 	$(CXX) $(ASAN) $(B)/obj/actor/gen.o $(B)/obj/actor/exec.o $(B)/lib-asan/libmodule.a -lrapidcheck -lpthread -ldl -o $@
+
+WRAPS := -Wl,--wrap=pthread_create -Wl,--wrap=pthread_join -Wl,--wrap=pthread_mutex_init -Wl,--wrap=pthread_mutex_lock -Wl,--wrap=pthread_mutex_unlock -Wl,--wrap=pthread_mutex_destroy -Wl,--wrap=pthread_cond_init -Wl,--wrap=pthread_cond_wait -Wl,--wrap=pthread_cond_signal -Wl,--wrap=pthread_cond_broadcast -Wl,--wrap=pthread_cond_destroy -Wl,--wrap=pthread_attr_setdetachstate
+$(B)/obj/thpool/%.o: harness/thpool/%.cpp $(COMMON) harness/thpool/sched.hpp
+	@mkdir -p $(dir $@)
+	$(CXX) $(CXXFLAGS) $(ASAN) $(LIBINC) -I$(B)/lib-asan/gen -c $< -o $@
+$(B)/thpool: $(B)/obj/thpool/pool.o $(B)/obj/thpool/sched.o $(B)/lib-asan/libmodule.a
+	$(CXX) $(ASAN) $(WRAPS) $(B)/obj/thpool/pool.o $(B)/obj/thpool/sched.o $(B)/lib-asan/libmodule.a -lrapidcheck -lpthread -ldl -o $@
+
+$(B)/thpool_race: harness/thpool/race.cpp $(COMMON) $(B)/lib-tsan/libmodule.a
+	$(CXX) $(CXXFLAGS) $(TSAN) $(LIBINC) -I$(B)/lib-tsan/gen harness/thpool/race.cpp $(B)/lib-tsan/libmodule.a -lrapidcheck -lpthread -ldl -o $@
 
 clean:
 	rm -rf $(B)
